@@ -244,7 +244,8 @@ class Negotiated:
         if self.received_open.router_id == RouterID('0.0.0.0'):
             return (2, 3, '0.0.0.0 is an invalid router_id')
 
-        if self.received_open.asn == neighbor.session.local_as:
+        # the 2-byte field holds AS_TRANS for a 4-byte AS: compare the true AS numbers
+        if self.peer_as == self.local_as:
             # router-id must be unique within an ASN
             if self.received_open.router_id == neighbor.session.router_id:
                 return (
